@@ -575,14 +575,10 @@ def c18_mapfile(w, ev, slot):
     path = store.new_path(w, '.map.tsv')
     with open(path, 'w', encoding='utf8') as f:
         f.write(text)
-    libproc = {}
-    from biom.cli import metadata_adder as MA
-    for key, fields in kw.items():
-        fn = {'int_fields': MA._int, 'float_fields': MA._float,
-              'sc_separated': MA._split_on_semicolons,
-              'sc_pipe_separated': MA._split_on_semicolons_and_pipes}[key]
-        for fld in fields:
-            libproc[fld] = fn
+    # the per-column conversions a caller passes to MetadataMap.from_file are
+    # the caller's functions (here: the reference ones); the command's own
+    # conversion helpers are exercised through the add-metadata routes below
+    libproc = dict(process)
     keep_quotes = (a >> 4) % 3 == 0
     want_direct = _ref_parse(text, override, process,
                              strip_quotes=not keep_quotes)
